@@ -14,8 +14,12 @@ theorem c04_replay_idempotent (m : KMap) (z y1 rest : List LOp)
   replay_idempotent m z y1 rest h
 
 /-- **Reopen reproduces every keyspace**, after any history of keyspace creation / deletion,
-    writes, batches, clears, memtable rotations, flushes, compaction-induced changes of the persisted
-    seqno, and any number of earlier reopen cycles with further writes in between. -/
+    writes, batches, clears, memtable rotations, flushes, bulk ingestion of values,
+    compaction-induced lowering of the highest persisted seqno (tombstone eviction), and any number
+    of earlier reopen cycles with further writes in between.  Recovery replays only the journal
+    records above the highest seqno found in a keyspace's tables (repaired, F2 / F3 / F13).
+    `ProgWF` asks that writes go through live handles, that ingestion carries no tombstones (see
+    `c04_ingested_tombstone_comes_back`) and that observed persisted seqnos are physically possible. -/
 theorem c04_reopen_same_partial (ops : List DOp) (hwf : ProgWF {} ops) (id : KsId) :
     ((drun {} ops).recover.absOf id).Equiv ((drun {} ops).absOf id) :=
   recover_abs _ (drun_inv {} ops dinv_init hwf) id
@@ -43,7 +47,23 @@ theorem c04_reopen_same_keyspaces (ops : List DOp) (hwf : ProgWF {} ops) :
       · rfl
   rw [this]
 
-/-! Non-vacuity: create, write, flush, clear, write, reopen, write, reopen. -/
+/-- **Known finding F13 (ingested tombstone)**: a tombstone written by bulk ingestion is not in the
+    journal; once a last-level compaction evicts it (the tables' highest seqno drops) a reopen
+    replays the journal's older put and the deleted key is back.  The only `ProgWF` clause this
+    history breaks is "ingestion carries values only". -/
+theorem c04_ingested_tombstone_comes_back :
+    let ops : List DOp := [.createKs "a", .write [(1, .put [1] [2])], .rotate 1, .flushSealed 1,
+      .ingest 1 [([1], none)], .lowerPersisted 1 none]
+    ((drun {} ops).absOf 1).get [1] = none ∧ ((drun {} ops).recover.absOf 1).get [1] = some [2] := by
+  decide
+
+/-! Non-vacuity: create, write, flush, clear, write, reopen, write, reopen; ingestion over a
+    journaled key, tombstone eviction, reopen. -/
+example : ProgWF {} [.createKs "a", .write [(1, .put [1] [2]), (1, .del [5])], .rotate 1, .flushSealed 1,
+    .ingest 1 [([1], some [9]), ([7], some [7])], .write [(1, .del [7])], .rotate 1, .flushSealed 1,
+    .lowerPersisted 1 (some 3), .reopen, .write [(1, .put [8] [8])], .reopen] := by
+  decide
+
 example : ProgWF {} [.createKs "a", .write [(1, .put [1] [2])], .rotate 1, .flushSealed 1,
     .write [(1, .clear)], .write [(1, .put [3] [4])], .reopen, .write [(1, .del [3])], .reopen] := by
   decide
